@@ -241,6 +241,7 @@ package parsley
 //@ func NewContext(fileSet *FileSet, reader Reader) (c *Context)
 //@   ensures fresh(c) && c.fileSet == fileSet && same(c.reader, reader) && c.resultCache != nil && c.err == nil && c.callCount == 0 && c.keywords != nil
 //@   ensures !c.transformationEnabled && !c.staticCheckEnabled && c.userCtx == nil
+//@   ensures [own-state;C14] fresh(c.keywords) && fresh(c.resultCache) && forall k string :: !dom(c.keywords, k)
 //@   assigns nothing
 
 //@ -- result cache: abstract view is rc[idx][pos] (nil when absent); entries are never nil
